@@ -372,13 +372,14 @@ def evalObs (st : Inp) (g : Graph) : String :=
   | none =>
     let t := traceOf st
     let o := outcome S t
-    match (g.dyn.lookup (o.dynKey, t.spans.length)), o.dyn with
-    | some _, .ok dr dkeep =>
+    match (g.dyn.lookup (o.dynKey, t.spans.length)) with
+    | some _ =>
+      let dr := o.dyn.rate
+      let dkeep := o.dyn.keep
       let roots := if st.spans.isEmpty then "-" else String.join (st.spans.map fun s => b01 s.root)
       s!"rate={o.rules.rate} keep={b01 o.rules.keep} reason={enc (reasonStr o.rules.reason)} key={enc o.rules.key} " ++
       s!"dk={enc o.dynKey} dr={dr} dkeep={b01 dkeep} roots={roots} g={gStr S.dec t}"
-    | none, _ => "missing-ext:dyn:" ++ enc o.dynKey
-    | _, .panic => "model-panic"
+    | none => "missing-ext:dyn:" ++ enc o.dynKey
 
 def encStep (st : Inp) (op : List String) (exts : List (List String)) : Inp × Option String :=
   match applyInput st op exts with
